@@ -98,15 +98,15 @@ type Sim struct {
 	tape *Tape
 	mu   sync.Mutex
 
-	tasks  []*Task
-	parked []*Task
-	events []Event
+	tasks   []*Task
+	parked  []*Task
+	events  []Event
 	nEvDrop int
-	wake   chan struct{}
-	epoch  time.Time
-	steps  int
-	root   *Task
-	nAnon  int
+	wake    chan struct{}
+	epoch   time.Time
+	steps   int
+	root    *Task
+	nAnon   int
 
 	running *Task
 
@@ -129,7 +129,7 @@ type Sim struct {
 	nonBaton  int
 
 	KeepLog bool
-	OnStep  func() // controller-side invariant hook, called at quiescence after every step
+	OnStep  func()                  // controller-side invariant hook, called at quiescence after every step
 	OnYield func(label string) bool // task-side crash/fault-point hook (vfs); return true to crash here
 }
 
